@@ -223,7 +223,13 @@ func runTrie2(c *TrieCase) (tr trace) {
 				tr.Roots = append(tr.Roots, feltHex(&h))
 				tr.Sets = append(tr.Sets, s.lastSet)
 				if tr.Read == "" {
-					tr.Read = readBack(s.tr, written)
+					// read back through a SECOND trie object: Get resolves (and re-hangs) every node it
+					// passes, which would hide the write-through-unresolved-node code of the main object
+					rd, err := trie2.New(s.id, s.height, s.hf, s.tdb)
+					if err != nil {
+						return err
+					}
+					tr.Read = readBack(rd, written)
 				}
 			}
 		}
@@ -292,7 +298,11 @@ func runLegacy(c *TrieCase) (tr trace) {
 					return err
 				}
 				if tr.Read == "" {
-					tr.Read = readBack(t, written)
+					rd, err := open()
+					if err != nil {
+						return err
+					}
+					tr.Read = readBack(rd, written)
 				}
 			}
 		}
